@@ -31,6 +31,7 @@ func checkC08(r *Report, p *Program) {
 	conditionTables(r, p, "R08.8")
 	claimsTables(r, p, "R08.9")
 	hookAnswerFrozenAfterGate(r, p, "R08.10")
+	noOpTestOperands(r, p, "R08.11")
 }
 
 // ---- key domains ----
